@@ -121,6 +121,34 @@ def _seeded(args) -> dict:
     return res
 
 
+def _benign(args) -> dict:
+    pid, modname, name = args
+    import importlib
+    from sa.context import Context
+    from sa.report import VERIF
+    mod = importlib.import_module(modname)
+    res = {"rule": "benign-corpus", "name": name, "expect": "silent"}
+    diff = (VERIF / "benign" / name / "patch.diff").read_text()
+    overlay = apply_unified_diff(diff, repo_root())
+    if overlay is None:
+        res["status"] = "not-applicable (patch does not apply to the current tree)"
+        return res
+    rep = Report(pid, "selftest")
+    try:
+        ctx = Context(tier="quick", overlay=overlay)
+        mod.run(ctx, rep)
+        if rep.unmet_floors() and not rep.violations:
+            raise AnalysisError("; ".join(rep.unmet_floors()))
+        known = {f["key"] for f in load_known().get("findings", [])}
+        vs = [v for v in rep.violations if v.key(pid) not in known]
+        res["reported"] = [f"{v.rule} {v.loc} {v.where}" for v in vs][:4]
+        res["status"] = "ok" if not vs else "FALSE-ALARM"
+    except AnalysisError as e:
+        res["reported"] = [f"ANALYSIS-ERROR {e}"]
+        res["status"] = "ERROR"
+    return res
+
+
 def _one(args) -> dict:
     pid, modname, idx = args
     import importlib
@@ -172,19 +200,27 @@ def run_selftests(pid: str, mod, rep: Report) -> None:
             if pid in r.get("fired", {}) and (
                     VERIF / "seeded" / name / "patch.diff").exists():
                 corpus.append((pid, mod.__name__, name))
-    if not jobs and not corpus:
+    benign = []
+    bdir = VERIF / "benign"
+    if bdir.exists():
+        benign = [(pid, mod.__name__, p.name) for p in sorted(bdir.iterdir())
+                  if (p / "patch.diff").exists()]
+    if not jobs and not corpus and not benign:
         return
-    workers = max(1, min(len(jobs) + len(corpus),
+    workers = max(1, min(len(jobs) + len(corpus) + len(benign),
                          int(os.environ.get("VERIF_JOBS", "16"))))
     with ProcessPoolExecutor(max_workers=workers) as ex:
-        results = list(ex.map(_one, jobs)) + list(ex.map(_seeded, corpus))
+        results = list(ex.map(_one, jobs)) + list(ex.map(_seeded, corpus)) + \
+            list(ex.map(_benign, benign))
     rep.selftest = results
     bad = [r for r in results if r["status"] in ("MISSED", "FALSE-ALARM",
                                                   "ERROR")]
     ok = sum(1 for r in results if r["status"].startswith("ok"))
     na = sum(1 for r in results if r["status"].startswith("not-applicable"))
     print(f"[{pid}] self-validation: {ok} ok, {na} not applicable, "
-          f"{len(bad)} failed of {len(results)} seeded variants")
+          f"{len(bad)} failed of {len(results)} variants ({len(jobs)} seeded "
+          f"by rule, {len(corpus)} independent changes, {len(benign)} "
+          f"behaviour-preserving refactorings)")
     for r in bad:
         print(f"  SELFTEST-{r['status']} rule={r['rule']} variant={r['name']} "
               f"reported={r.get('reported')}")
